@@ -18,76 +18,6 @@ import (
 	"verif/harness/rt"
 )
 
-// Analyse is the reference analyser: it returns the list of offending
-// recursions (unbounded or depth > max) anywhere in a selector spec, and the
-// set of clause kinds on the path to each. ok=false if the spec has a shape
-// the analyser does not know (the case is then skipped).
-func Analyse(n datamodel.Node, max int64, path string, out *[]string) (ok bool) {
-	if n.Kind() != datamodel.Kind_Map || n.Length() != 1 {
-		return false
-	}
-	kn, v, _ := n.MapIterator().Next()
-	k, _ := kn.AsString()
-	next := func(field string) bool {
-		c, err := v.LookupByString(field)
-		if err != nil {
-			return false
-		}
-		return Analyse(c, max, path+"/"+k, out)
-	}
-	switch k {
-	case ".", "@":
-		return true
-	case "a", "i", "r", "~":
-		return next(">")
-	case "f":
-		fs, err := v.LookupByString("f>")
-		if err != nil {
-			return false
-		}
-		it := fs.MapIterator()
-		for !it.Done() {
-			_, c, err := it.Next()
-			if err != nil || !Analyse(c, max, path+"/f", out) {
-				return false
-			}
-		}
-		return true
-	case "|":
-		it := v.ListIterator()
-		for !it.Done() {
-			_, c, err := it.Next()
-			if err != nil || !Analyse(c, max, path+"/|", out) {
-				return false
-			}
-		}
-		return true
-	case "R":
-		l, err := v.LookupByString("l")
-		if err != nil || l.Kind() != datamodel.Kind_Map || l.Length() != 1 {
-			return false
-		}
-		lk, lv, _ := l.MapIterator().Next()
-		lks, _ := lk.AsString()
-		switch lks {
-		case "none":
-			*out = append(*out, path+"/R(none)")
-		case "depth":
-			d, err := lv.AsInt()
-			if err != nil {
-				return false
-			}
-			if d > max {
-				*out = append(*out, fmt.Sprintf("%s/R(depth=%d)", path, d))
-			}
-		default:
-			return false
-		}
-		return next(":>")
-	}
-	return false
-}
-
 func toJSON(n datamodel.Node) string {
 	b, err := ipld.Encode(n, dagjson.Encode)
 	if err != nil {
@@ -145,7 +75,7 @@ func TestValidator(t *testing.T) {
 			continue
 		}
 		var bad []string
-		if !Analyse(spec, 100, "", &bad) {
+		if !gen.Analyse(spec, 100, "", &bad) {
 			skipped++
 			continue
 		}
